@@ -6,6 +6,8 @@ Everything is proved for an arbitrary register width `w` and polynomial `P` whos
 constant term of the generator polynomial in reflected notation) is set.
 -/
 import Dtn7.Model.CrcSpec
+import Dtn7.Model.Crc
+import Dtn7.Lemmas.Cbor
 
 namespace Dtn7.Crc.Lemmas
 open Dtn7.Crc Dtn7.Cbor
@@ -284,5 +286,320 @@ theorem run_burst_ne (P : BitVec w) (hP : P.msb = true) (s : BitVec w) (d d' : B
     exact replicate_of_all_false _ hc _ a k _ he rfl
   · rw [he] at hx
     exact run0_burst_ne_zero P hP a k _ hb hc hx
+
+/-! ### Suffixes, prefixes, windows -/
+
+theorem xorBits_self (a : Bits) : xorBits a a = List.replicate a.length false := by
+  induction a with
+  | nil => rfl
+  | cons x t ih => simp [xorBits, List.replicate_succ, ih]
+
+theorem xorBits_append (a a' b b' : Bits) (h : a.length = a'.length) :
+    xorBits (a ++ b) (a' ++ b') = xorBits a a' ++ xorBits b b' := by
+  induction a generalizing a' with
+  | nil => cases a' with
+    | nil => rfl
+    | cons _ _ => simp at h
+  | cons x t ih => cases a' with
+    | nil => simp at h
+    | cons x' t' => simp [xorBits, ih t' (by simpa using h)]
+
+/-- Feeding the same bits is injective in the start state. -/
+theorem run_state_injective (P : BitVec w) (hP : P.msb = true) (s s' : BitVec w) (tl : Bits)
+    (h : run P s tl = run P s' tl) : s = s' := by
+  have hx := run_xor P s s' tl tl rfl
+  rw [h, BitVec.xor_self, xorBits_self] at hx
+  have := Tn_eq_zero P hP tl.length (s ^^^ s') hx
+  have h2 : (s ^^^ s') ^^^ s' = 0#w ^^^ s' := by rw [this]
+  rwa [BitVec.xor_assoc, BitVec.xor_self, BitVec.xor_zero, BitVec.zero_xor] at h2
+
+/-- Burst detection with a common prefix and a common suffix (the suffix is where the zeroed CRC field
+and everything after the burst goes). -/
+theorem run_burst_ne_ctx (P : BitVec w) (hP : P.msb = true) (s : BitVec w) (pre d d' tl : Bits)
+    (hlen : d.length = d'.length) (hb : span (xorBits d d') ≤ w) (hne : d ≠ d') :
+    run P s (pre ++ d ++ tl) ≠ run P s (pre ++ d' ++ tl) := by
+  intro h
+  rw [run_append, run_append, run_append, run_append] at h
+  exact run_burst_ne P hP (run P s pre) d d' hlen hb hne (run_state_injective P hP _ _ tl h)
+
+/-- Any change confined to a window of at most `w` bits is detected. -/
+theorem run_window_ne (P : BitVec w) (hP : P.msb = true) (s : BitVec w) (pre c c' post : Bits)
+    (hlen : c.length = c'.length) (hw : c.length ≤ w) (hne : c ≠ c') :
+    run P s (pre ++ c ++ post) ≠ run P s (pre ++ c' ++ post) := by
+  intro h
+  rw [run_append, run_append, run_append, run_append] at h
+  have h1 := run_state_injective P hP _ _ post h
+  have hx := run_xor P (run P s pre) (run P s pre) c c' hlen
+  rw [h1, BitVec.xor_self, BitVec.xor_self] at hx
+  have hl : (xorBits c c').length ≤ w := by rw [xorBits_length c c' hlen]; exact hw
+  exact hne (eq_of_xorBits_false c c' hlen (run0_window P hP _ hl hx))
+
+/-! ### Bytes -/
+
+theorem bitsOf_append (a b : Bytes) : bitsOf (a ++ b) = bitsOf a ++ bitsOf b := by
+  induction a with
+  | nil => rfl
+  | cons x t ih => simp [bitsOf, ih]
+
+theorem bitsOf_length (d : Bytes) : (bitsOf d).length = 8 * d.length := by
+  induction d with
+  | nil => rfl
+  | cons x t ih => simp [bitsOf, byteBits, ih]; omega
+
+theorem byteBits_injective (a b : UInt8) (h : byteBits a = byteBits b) : a = b := by
+  have ha : a.toNat < 2 ^ 8 := a.toNat_lt
+  have hb : b.toNat < 2 ^ 8 := b.toNat_lt
+  simp only [byteBits, List.cons.injEq, and_true] at h
+  obtain ⟨h0, h1, h2, h3, h4, h5, h6, h7⟩ := h
+  apply UInt8.toNat_inj.mp
+  apply Nat.eq_of_testBit_eq
+  intro i
+  by_cases hi : i < 8
+  · have : i = 0 ∨ i = 1 ∨ i = 2 ∨ i = 3 ∨ i = 4 ∨ i = 5 ∨ i = 6 ∨ i = 7 := by omega
+    rcases this with rfl | rfl | rfl | rfl | rfl | rfl | rfl | rfl <;> assumption
+  · have h8 : 2 ^ 8 ≤ 2 ^ i := Nat.pow_le_pow_right (by decide) (by omega)
+    rw [Nat.testBit_lt_two_pow (by omega), Nat.testBit_lt_two_pow (by omega)]
+
+theorem bitsOf_injective (a b : Bytes) (hlen : a.length = b.length) (h : bitsOf a = bitsOf b) : a = b := by
+  induction a generalizing b with
+  | nil => cases b with
+    | nil => rfl
+    | cons _ _ => simp at hlen
+  | cons x t ih => cases b with
+    | nil => simp at hlen
+    | cons y u =>
+      simp only [bitsOf] at h
+      have h1 := List.append_inj h (by simp [byteBits])
+      rw [byteBits_injective x y h1.1, ih u (by simpa using hlen) h1.2]
+
+/-! ### The two concrete CRCs -/
+
+theorem P16_msb : P16.msb = true := by decide
+theorem P32_msb : P32.msb = true := by decide
+
+theorem crcX25_ne (d d' : Bytes)
+    (h : run P16 0xFFFF#16 (bitsOf d) ≠ run P16 0xFFFF#16 (bitsOf d')) : crcX25 d ≠ crcX25 d' := by
+  unfold crcX25
+  intro e
+  exact h (BitVec.not_inj.mp e)
+
+theorem crc32c_ne (d d' : Bytes)
+    (h : run P32 0xFFFFFFFF#32 (bitsOf d) ≠ run P32 0xFFFFFFFF#32 (bitsOf d')) : crc32c d ≠ crc32c d' := by
+  unfold crc32c
+  intro e
+  exact h (BitVec.not_inj.mp e)
+
+theorem beBytes_injective (k n n' : Nat) (hn : n < 256 ^ k) (hn' : n' < 256 ^ k)
+    (h : beBytes k n = beBytes k n') : n = n' := by
+  have := congrArg beVal h
+  rwa [Cbor.Lemmas.beVal_beBytes k n hn, Cbor.Lemmas.beVal_beBytes k n' hn'] at this
+
+theorem crcLen_cases (t : Nat) (ht : t = 1 ∨ t = 2) :
+    (t = 1 ∧ crcLen t = 2 ∧ crcWidth t = 16) ∨ (t = 2 ∧ crcLen t = 4 ∧ crcWidth t = 32) := by
+  rcases ht with rfl | rfl
+  · left; decide
+  · right; decide
+
+/-- The CRC field distinguishes two inputs as soon as the register of its width does. -/
+theorem crcField_ne (t : Nat) (ht : t = 1 ∨ t = 2) (d d' : Bytes)
+    (h16 : t = 1 → run P16 0xFFFF#16 (bitsOf d) ≠ run P16 0xFFFF#16 (bitsOf d'))
+    (h32 : t = 2 → run P32 0xFFFFFFFF#32 (bitsOf d) ≠ run P32 0xFFFFFFFF#32 (bitsOf d')) :
+    crcField t d ≠ crcField t d' := by
+  rcases ht with rfl | rfl
+  · simp only [crcField, ↓reduceIte, ne_eq, Option.some.injEq]
+    intro e
+    have := beBytes_injective 2 _ _ (crcX25 d).isLt (crcX25 d').isLt e
+    exact crcX25_ne d d' (h16 rfl) (BitVec.eq_of_toNat_eq this)
+  · simp only [crcField, show ¬ (2 = 1) by decide, ↓reduceIte, ne_eq, Option.some.injEq]
+    intro e
+    have := beBytes_injective 4 _ _ (crc32c d).isLt (crc32c d').isLt e
+    exact crc32c_ne d d' (h32 rfl) (BitVec.eq_of_toNat_eq this)
+
+theorem crcField_length (t : Nat) (d v : Bytes) (h : crcField t d = some v) :
+    v.length = crcLen t ∧ (t = 1 ∨ t = 2) := by
+  unfold crcField at h
+  split at h
+  · next h1 => subst h1; cases h; exact ⟨by simp [Cbor.Lemmas.beBytes_length, crcLen], Or.inl rfl⟩
+  · split at h
+    · next h2 => subst h2; cases h; exact ⟨by simp [Cbor.Lemmas.beBytes_length, crcLen], Or.inr rfl⟩
+    · cases h
+
+theorem crcField_isSome (t : Nat) (ht : t = 1 ∨ t = 2) (d : Bytes) : ∃ v, crcField t d = some v := by
+  rcases ht with rfl | rfl
+  · exact ⟨beBytes 2 (crcX25 d).toNat, by simp [crcField]⟩
+  · exact ⟨beBytes 4 (crc32c d).toNat, by simp [crcField]⟩
+
+/-- **Burst theorem on the Spec function**, with arbitrary common context `pre … tl`. -/
+theorem crcField_burst_ne (t : Nat) (ht : t = 1 ∨ t = 2) (pre d d' tl : Bytes)
+    (hlen : d.length = d'.length)
+    (hb : span (xorBits (bitsOf d) (bitsOf d')) ≤ crcWidth t) (hne : d ≠ d') :
+    crcField t (pre ++ d ++ tl) ≠ crcField t (pre ++ d' ++ tl) := by
+  have hl : (bitsOf d).length = (bitsOf d').length := by simp [bitsOf_length, hlen]
+  have hn : bitsOf d ≠ bitsOf d' := fun e => hne (bitsOf_injective d d' hlen e)
+  apply crcField_ne t ht
+  · intro h1
+    subst h1
+    simp only [bitsOf_append]
+    exact run_burst_ne_ctx P16 P16_msb _ _ _ _ _ hl hb hn
+  · intro h2
+    subst h2
+    simp only [bitsOf_append]
+    exact run_burst_ne_ctx P32 P32_msb _ _ _ _ _ hl hb hn
+
+/-- **Byte window**: any change confined to `crcLen t` consecutive bytes is detected. -/
+theorem crcField_window_ne (t : Nat) (ht : t = 1 ∨ t = 2) (pre m m' post : Bytes)
+    (hlen : m.length = m'.length) (hw : m.length ≤ crcLen t) (hne : m ≠ m') :
+    crcField t (pre ++ m ++ post) ≠ crcField t (pre ++ m' ++ post) := by
+  have hl : (bitsOf m).length = (bitsOf m').length := by simp [bitsOf_length, hlen]
+  have hn : bitsOf m ≠ bitsOf m' := fun e => hne (bitsOf_injective m m' hlen e)
+  apply crcField_ne t ht
+  · intro h1
+    subst h1
+    simp only [bitsOf_append]
+    refine run_window_ne P16 P16_msb _ _ _ _ _ hl ?_ hn
+    rw [bitsOf_length]; simp [crcLen] at hw; omega
+  · intro h2
+    subst h2
+    simp only [bitsOf_append]
+    refine run_window_ne P32 P32_msb _ _ _ _ _ hl ?_ hn
+    rw [bitsOf_length]; simp [crcLen] at hw; omega
+
+/-! ### The model of dtn7's check against the Spec -/
+
+theorem zeros_length (n : Nat) : (zeros n).length = n := by simp [zeros]
+
+theorem encBytes_short (f : Bytes) (h : f.length < 24) :
+    encBytes f = UInt8.ofNat (2 * 32 + f.length) :: f := by
+  simp [encBytes, encHead, h, majBytes]
+
+/-- The block bytes with zeroed field, when the CRC item has the shortest head, are exactly what
+`calculateCRCBuff` hashes. -/
+theorem zeroField_block (t : Nat) (ht : t = 1 ∨ t = 2) (buf field : Bytes) (hf : field.length = crcLen t) :
+    zeroField t (buf ++ encBytes field) = buf ++ encBytes (zeros (crcLen t)) := by
+  have hl : crcLen t < 24 := by rcases crcLen_cases t ht with ⟨_, h, _⟩ | ⟨_, h, _⟩ <;> omega
+  rw [encBytes_short field (by omega), encBytes_short (zeros (crcLen t)) (by rw [zeros_length]; exact hl)]
+  unfold zeroField
+  have e : (buf ++ UInt8.ofNat (2 * 32 + field.length) :: field).length - crcLen t = (buf ++ [UInt8.ofNat (2 * 32 + field.length)]).length := by
+    simp [hf]; omega
+  rw [e]
+  have e2 : buf ++ UInt8.ofNat (2 * 32 + field.length) :: field = (buf ++ [UInt8.ofNat (2 * 32 + field.length)]) ++ field := by simp
+  rw [e2, List.take_left' rfl, zeros_length, hf]
+  simp
+
+theorem drop_block (t : Nat) (buf field : Bytes) (hf : field.length = crcLen t) (h24 : field.length < 24) :
+    (buf ++ encBytes field).drop ((buf ++ encBytes field).length - crcLen t) = field := by
+  rw [encBytes_short field h24]
+  have e : (buf ++ UInt8.ofNat (2 * 32 + field.length) :: field).length - crcLen t = (buf ++ [UInt8.ofNat (2 * 32 + field.length)]).length := by
+    simp [hf]; omega
+  rw [e]
+  have e2 : buf ++ UInt8.ofNat (2 * 32 + field.length) :: field = (buf ++ [UInt8.ofNat (2 * 32 + field.length)]) ++ field := by simp
+  rw [e2, List.drop_left' rfl]
+
+theorem crcCalc_eq (t : Nat) (ht : t = 1 ∨ t = 2) (buf : Bytes) :
+    crcCalc t buf = crcField t (buf ++ encBytes (zeros (crcLen t))) := by
+  unfold crcCalc
+  have : t ≠ 0 := by omega
+  simp [this]
+
+theorem checkField_encBytes (buf : Bytes) (t : Nat) (field rest c : Bytes) (hf : field.length ≤ maxInt32)
+    (hc : crcCalc t buf = some c) :
+    checkField buf t (encBytes field ++ rest) = if c = field then .ok (field, rest) else .error .crc := by
+  unfold checkField checkFieldWith
+  rw [hc, Cbor.Lemmas.decBytes_encBytes field rest hf]
+
+/-- `accept_iff_crc` (see `Dtn7.Props.C03`). -/
+theorem accept_iff_crc (t : Nat) (ht : t = 1 ∨ t = 2) (buf field rest : Bytes)
+    (hf : field.length = crcLen t) :
+    checkField buf t (encBytes field ++ rest) = .ok (field, rest) ↔ BlockCrcOk t (buf ++ encBytes field) := by
+  have hl : crcLen t ≤ 4 := by rcases crcLen_cases t ht with ⟨_, h, _⟩ | ⟨_, h, _⟩ <;> omega
+  obtain ⟨c, hc⟩ := crcField_isSome t ht (buf ++ encBytes (zeros (crcLen t)))
+  have hcalc : crcCalc t buf = some c := by rw [crcCalc_eq t ht, hc]
+  rw [checkField_encBytes buf t field rest c (by unfold maxInt32; omega) hcalc]
+  unfold BlockCrcOk
+  rw [zeroField_block t ht buf field hf, drop_block t buf field hf (by omega), hc]
+  constructor
+  · intro h
+    split at h
+    · next e => subst e; exact ⟨by simp [encBytes]; omega, rfl⟩
+    · cases h
+  · intro h
+    have : c = field := by simpa using h.2
+    simp [this]
+
+/-- Whatever the model accepts has the value `calculateCRCBuff` computed, hence the right length. -/
+theorem accept_imp (t : Nat) (buf rest v rest' : Bytes) (h : checkField buf t rest = .ok (v, rest')) :
+    crcCalc t buf = some v ∧ decBytes rest = .ok (v, rest') := by
+  unfold checkField checkFieldWith at h
+  split at h
+  · cases h
+  · next c hc =>
+    split at h
+    · cases h
+    · next v' r' hd =>
+      split at h
+      · next e => cases h; exact ⟨by rw [hc, e], hd⟩
+      · cases h
+
+theorem serialize_crc (t : Nat) (ht : t = 1 ∨ t = 2) (buf rest : Bytes) :
+    ∃ f, serializeField t buf = some (encBytes f) ∧ f.length = crcLen t ∧
+      BlockCrcOk t (buf ++ encBytes f) ∧ checkField buf t (encBytes f ++ rest) = .ok (f, rest) := by
+  obtain ⟨c, hc⟩ := crcField_isSome t ht (buf ++ encBytes (zeros (crcLen t)))
+  have hcalc : crcCalc t buf = some c := by rw [crcCalc_eq t ht, hc]
+  have hlen := (crcField_length t _ c hc).1
+  have hchk : checkField buf t (encBytes c ++ rest) = .ok (c, rest) := by
+    have hl : crcLen t ≤ 4 := by rcases crcLen_cases t ht with ⟨_, h, _⟩ | ⟨_, h, _⟩ <;> omega
+    rw [checkField_encBytes buf t c rest c (by unfold maxInt32; omega) hcalc]; simp
+  exact ⟨c, by simp [serializeField, hcalc], hlen, (accept_iff_crc t ht buf c rest hlen).mp hchk, hchk⟩
+
+/-- A burst of at most the CRC width anywhere in the bytes before the CRC item, everything else
+(length, CRC item, what follows) unchanged: at most one of the two blocks is accepted. -/
+theorem block_burst_rejected (t : Nat) (ht : t = 1 ∨ t = 2) (pre d d' post field rest : Bytes)
+    (hlen : d.length = d'.length)
+    (hb : span (xorBits (bitsOf d) (bitsOf d')) ≤ crcWidth t) (hne : d ≠ d')
+    (hf : field.length ≤ maxInt32)
+    (hacc : checkField (pre ++ d ++ post) t (encBytes field ++ rest) = .ok (field, rest)) :
+    checkField (pre ++ d' ++ post) t (encBytes field ++ rest) = .error .crc := by
+  obtain ⟨c, hc⟩ := crcField_isSome t ht ((pre ++ d ++ post) ++ encBytes (zeros (crcLen t)))
+  obtain ⟨c', hc'⟩ := crcField_isSome t ht ((pre ++ d' ++ post) ++ encBytes (zeros (crcLen t)))
+  have hcalc : crcCalc t (pre ++ d ++ post) = some c := by rw [crcCalc_eq t ht, hc]
+  have hcalc' : crcCalc t (pre ++ d' ++ post) = some c' := by rw [crcCalc_eq t ht, hc']
+  rw [checkField_encBytes _ t field rest c hf hcalc] at hacc
+  rw [checkField_encBytes _ t field rest c' hf hcalc']
+  have hcf : c = field := by
+    split at hacc
+    · assumption
+    · cases hacc
+  have hne' := crcField_burst_ne t ht pre d d' (post ++ encBytes (zeros (crcLen t))) hlen hb hne
+  simp only [← List.append_assoc] at hne'
+  rw [hc, hc'] at hne'
+  have : c' ≠ field := fun e => hne' (by rw [hcf, e])
+  simp [this]
+
+/-- A changed CRC value with unchanged protected bytes is rejected. -/
+theorem field_change_rejected (t : Nat) (buf field field' rest rest' : Bytes)
+    (hf' : field'.length ≤ maxInt32) (hne : field ≠ field')
+    (hacc : checkField buf t (encBytes field ++ rest) = .ok (field, rest)) :
+    checkField buf t (encBytes field' ++ rest') = .error .crc := by
+  have ⟨hc, _⟩ := accept_imp t buf _ field rest hacc
+  rw [checkField_encBytes buf t field' rest' field hf' hc]
+  simp [hne]
+
+/-- Flipping bit `k` of a byte changes the byte. -/
+theorem flip_ne (x : UInt8) (k : Nat) (hk : k < 8) : x ^^^ UInt8.ofNat (2 ^ k) ≠ x := by
+  intro h
+  have h1 := congrArg UInt8.toNat h
+  have hm : (UInt8.ofNat (2 ^ k)).toNat = 2 ^ k := by
+    apply Cbor.Lemmas.toNat_ofNat_lt
+    have : 2 ^ k < 2 ^ 8 := Nat.pow_lt_pow_right (by decide) hk
+    omega
+  rw [UInt8.toNat_xor, hm] at h1
+  have h2 := congrArg (fun n => n.testBit k) h1
+  simp only [Nat.testBit_xor, Nat.testBit_two_pow_self] at h2
+  cases hx : x.toNat.testBit k <;> simp [hx] at h2
+
+/-- The parser rejects anything that does not start with the indefinite-array byte. -/
+theorem frame_start_rejected (b : UInt8) (rest : Bytes) (h : b.toNat ≠ 0x9F) :
+    parseBundle (b :: rest) = .other := by
+  simp [parseBundle, parseBundleWith, h]
 
 end Dtn7.Crc.Lemmas
